@@ -377,7 +377,7 @@ func init() {
 		Components: kComponents, Assumptions: kAssume, NeedNS: true,
 		Quick:    vcore.Budget{Wall: 30 * time.Second, Shards: 16},
 		Thorough: vcore.Budget{Wall: 12 * time.Minute, Shards: 16},
-		Init:     kInit, Run: c15Run,
+		Init:     kInitUnpriv, Run: c15Run,
 		StallLimit: 120 * time.Second,
 	})
 }
